@@ -38,7 +38,7 @@ def gen_scenarios(rng, n):
             if r < 0.2:
                 return None
             form = rng.choice(PLAIN_FORMS) if rng.random() < 0.62 else rng.choice(QUIRK_FORMS)
-            return {"form": form, "target": rng.choice(["V", "V", "V", "W", "W", "U"])}
+            return {"form": form, "target": rng.choice(["V", "V", "V", "W", "W", "U"]), "var": rng.randrange(10)}
         s = {"method": m, "status": st, "hostmode": rng.randrange(2), "loc": ref(), "cloc": ref()}
         if rng.random() < 0.5:
             s[rng.choice(["loc", "cloc"])] = None
@@ -63,16 +63,17 @@ def ref_text(r, s, c):
     tgt = r["target"]
     auth = c["H2"] if tgt == "W" else c["H"]
     path = c["p" + tgt]
-    seg = path.rsplit("/", 1)[1]
+    seg = path.rsplit("/", 1)[-1]
     d = path.rsplit("/", 1)[0]
     f = r["form"]
     host, port = auth.rsplit(":", 1)
+    var = r.get("var", 0)
     if f == "abs": return "http://%s%s" % (auth, path)
     if f == "path": return path
     if f == "seg": return seg
     if f == "dotseg": return "./" + seg
     if f == "dotdot": return "../S/" + seg
-    if f == "path-dots": return d + "/./" + seg if len(seg) % 2 else d + "/x/../" + seg
+    if f == "path-dots": return d + "/./" + seg if var % 2 else d + "/x/../" + seg
     if f == "netpath": return "//%s%s" % (auth, path)
     if f == "abs-SCHEME": return "HTTP://%s%s" % (auth, path)
     if f == "abs-HOSTCASE": return "http://%s:%s%s" % (host.upper(), port, path)
@@ -80,9 +81,9 @@ def ref_text(r, s, c):
     if f == "path-frag": return path + "#frag"
     if f == "empty": return ""
     if f == "abs-otherport": return "http://%s:%d%s" % (host, int(port) % 60000 + 1, path)
-    if f == "abs-hostprefix": return "http://%s%s" % (auth[:-1], path) if len(seg) % 2 else "http://%s0%s" % (auth, path)
-    if f == "abs-noauth": return "http:%s" % path if len(seg) % 2 else "http://"
-    if f == "garbage": return ["mailto:x@example.com", ":", "http:", "a:b", "x/y:z"][len(seg) % 5]
+    if f == "abs-hostprefix": return "http://%s%s" % (auth[:-1], path) if var % 2 else "http://%s0%s" % (auth, path)
+    if f == "abs-noauth": return "http:%s" % path if var % 2 else "http://"
+    if f == "garbage": return ["mailto:x@example.com", ":", "http:", "a:b", "x/y:z"][var % 5]
     raise ValueError(f)
 
 
